@@ -72,9 +72,9 @@ Proof.
   - intros a [<-|Hin]; [cbn; exact Hlt|auto].
 Qed.
 
-Theorem step_inv s t h o : Inv s -> Inv (step sound s t h o).
+Theorem step_inv p s t h o : sound_proto p = true -> Inv s -> Inv (step p s t h o).
 Proof.
-  intros I. unfold step.
+  intros Hp I. unfold sound_proto in Hp. apply andb_prop in Hp as [Hp Hp3]. apply andb_prop in Hp as [Hp1 Hp2]. unfold step.
   destruct (alive (hnd_at s h) && Nat.eqb (owner (hnd_at s h)) t) eqn:G; cbn [negb]; [|exact I].
   apply andb_prop in G as [Ha Ho]. apply Nat.eqb_eq in Ho.
   pose proof (alive_lt _ _ Ha) as Hlt. pose proof (alive_nal _ _ Ha) as Hn.
@@ -129,12 +129,12 @@ Proof.
       rewrite nth_app_old by exact Hg. split.
       * intros Hag. specialize (R1 Hag). unfold updf. destruct (Nat.eqb _ t) eqn:E; cbn; auto. apply Nat.eqb_eq in E. rewrite E in R1. specialize (Hcb (atid a)). fold T in R1. lia.
       * intros Hag. specialize (R2 Hag). unfold top, msg_at in *. cbn. rewrite app_length. cbn.
-        replace (length (ms s) + 1 - 1) with (length (ms s)) by lia. rewrite nth_app_new. cbn. unfold vjoin. unfold m. lia.
+        replace (length (ms s) + 1 - 1) with (length (ms s)) by lia. rewrite nth_app_new. cbn. unfold m. destruct (incr_release p); unfold vjoin; lia.
     + intros a Hin. rewrite app_length. cbn. pose proof (i_H _ I a Hin). lia.
   - (* Drop *)
     pose proof (i_ms _ I) as Hms. set (m := msg_at s (top s)) in *.
     assert (length (ms s) = S (top s)) as Hlen by (unfold top; lia).
-    set (pd := vjoin (pend T) (mview m)). cbn [decr_release free_fence sound]. rewrite andb_true_r.
+    set (pd := vjoin (pend T) (mview m)). rewrite Hp1, Hp2. rewrite andb_true_r.
     set (c' := if mval m =? 0 then vjoin c pd else c).
     assert (vle c c') as Hc' by (unfold c'; destruct (mval m =? 0); [apply vle_join_l|apply vle_refl]).
     assert (vle (clk T) c') as Hcc' by (eapply vle_trans; eauto).
@@ -195,7 +195,7 @@ Proof.
     set (m := msg_at s j). set (pd := vjoin (pend T) (mview m)).
     destruct (mval m =? 0) eqn:Ez.
     2:{ apply inv_with_thr; cbn; auto. }
-    apply Nat.eqb_eq in Ez. cbn [uniq_fence sound].
+    apply Nat.eqb_eq in Ez. rewrite Hp3.
     (* key lemma: an owner that reads 0 has read the latest message, and is the only owner *)
     assert (j = top s) as Hj.
     { destruct (Nat.eq_dec j (top s)); auto. exfalso.
@@ -265,8 +265,8 @@ Proof.
 Qed.
 
 
-Theorem run_inv : forall sc s, Inv s -> Inv (fold_left (fun s '(t, h, o) => step sound s t h o) sc s).
-Proof. induction sc as [|[[t h] o] sc IH]; intros s I; cbn [fold_left]; [exact I|]. apply IH. now apply step_inv. Qed.
+Theorem run_inv p : sound_proto p = true -> forall sc s, Inv s -> Inv (fold_left (fun s '(t, h, o) => step p s t h o) sc s).
+Proof. intros Hp. induction sc as [|[[t h] o] sc IH]; intros s I; cbn [fold_left]; [exact I|]. apply IH. now apply step_inv. Qed.
 Lemma inv_init : Inv init.
 Proof.
   split.
@@ -281,6 +281,11 @@ Proof.
   - intros a Hin. cbn in Hin. contradiction.
 Qed.
 (* every schedule, any number of threads, any number of clones: no race, no use-after-free, no double free *)
-Theorem race_free_all_schedules : forall sc, err (run sound sc) = false.
-Proof. intros sc. apply i_err. apply run_inv. apply inv_init. Qed.
+Theorem race_free_all_schedules : forall p, sound_proto p = true -> forall sc, err (run p sc) = false.
+Proof. intros p Hp sc. apply i_err. apply run_inv; [exact Hp|apply inv_init]. Qed.
+(* the protocol as written in smart.rs, and the same with a relaxed increment (as std's Arc does) *)
+Corollary pinned_protocol_ok : forall sc, err (run sound sc) = false.
+Proof. apply race_free_all_schedules. reflexivity. Qed.
+Corollary relaxed_incr_ok : forall sc, err (run {| incr_release := false; decr_release := true; free_fence := true; uniq_fence := true |} sc) = false.
+Proof. apply race_free_all_schedules. reflexivity. Qed.
 Print Assumptions race_free_all_schedules.
